@@ -739,6 +739,7 @@ func TestC43(t *testing.T) {
 		focusOrg, focusDB := rg.Intn(2), rg.Intn(2)
 		var hist []string
 		changed := 0
+		seenSig := map[string]bool{}
 		for s := 0; s < length; s++ {
 			var op c43Op
 			if virt && rg.Chance(1, 4) {
@@ -767,9 +768,19 @@ func TestC43(t *testing.T) {
 				vs = append(vs, c43Sweep(w, m, org, op.Kind, ev)...)
 			}
 			vs = append(vs, c43SweepAll(w, op.Kind, ev)...)
-			if len(vs) > 0 {
-				c43Report(r, w, append([]string(nil), hist...), op.String(), vs)
-				break
+			// each kind of violation once per history; the history goes on
+			var fresh []c43Viol
+			for _, v := range vs {
+				delete(v.feat, "trigger") // the same broken state is re-observed after every later operation
+				sig := v.class + fmt.Sprint(v.feat)
+				if !seenSig[sig] {
+					seenSig[sig] = true
+					v.feat["trigger"] = op.Kind
+					fresh = append(fresh, v)
+				}
+			}
+			if len(fresh) > 0 {
+				c43Report(r, w, append([]string(nil), hist...), op.String(), fresh)
 			}
 		}
 		r.Case(strings.Join(hist, ";"), changed >= 2)
